@@ -44,6 +44,9 @@ type c19Case struct {
 	Origin  string `json:"origin"`
 	Text    string `json:"text"`
 	Variant string `json:"variant"`
+	// Epilogue: the program section of Text when the harness knows it independently of yaccgo
+	// (it contains the section mark %% inside a comment)
+	Epilogue string `json:"epilogue,omitempty"`
 }
 
 var c19Variants = []string{gen.Go, gen.GoU, gen.GoO, gen.TS}
@@ -114,10 +117,11 @@ func semanticFaults(name string, s *gram.Spec) []gram.Named2 {
 
 func c19Work(w *Worker) {
 	var idx int64
+	knownEpilogue := ""
 	emit := func(origin, text string) {
 		for _, v := range c19Variants {
 			if w.Mine(idx) {
-				c := &c19Case{Origin: origin, Text: text, Variant: v}
+				c := &c19Case{Origin: origin, Text: text, Variant: v, Epilogue: knownEpilogue}
 				if idx%16 == 0 {
 					w.Begin(idx, c)
 				}
@@ -136,8 +140,20 @@ func c19Work(w *Worker) {
 		if !w.Thorough() && len(f.Text) > 600 {
 			step = 7
 		}
+		if f.NoEdits {
+			continue
+		}
 		for n := 0; n <= len(f.Text); n += step {
+			if n == len(f.Text) {
+				knownEpilogue = f.Epilogue // the whole, unmodified file
+			}
 			emit("prefix:"+f.Name, f.Text[:n])
+			knownEpilogue = ""
+		}
+		if len(f.Text)%step != 0 {
+			knownEpilogue = f.Epilogue
+			emit("whole:"+f.Name, f.Text)
+			knownEpilogue = ""
 		}
 		toks := splitTokens(f.Text)
 		stride := 1
@@ -209,6 +225,10 @@ func c19Eval(w *Worker, c *c19Case, cli bool) {
 		}
 	} else {
 		w.Count("succeeding_runs", 1)
+		if c.Epilogue != "" && !strings.HasSuffix(string(after), c.Epilogue) {
+			bad("file-incomplete", "generation succeeded but the file does not end with the program section of the grammar file (which contains the characters %% in a comment)")
+			return
+		}
 		b := ygo.Build(text, ygo.Options{Fuel: textFuel})
 		if b.OK() {
 			epi := b.V.GetCodeCopy()
